@@ -263,6 +263,21 @@ vf::ConfigEntry& vf::the_config() {
 ''' % dict(header=header, plist=plist, al=al, names=names, decls=decls, name=cfg['name'], descr=descr(cfg))
 
 
+def emit_tu_c19(cfg):
+    plist = ', '.join(param_cpp(x) for x in cfg['params'])
+    return '''// generated by gen/configs.py (C19) -- do not edit
+#include "c19.hpp"
+namespace {
+using LI = vf::ListInfo<%(plist)s>;
+using Vec = cntgs::ContiguousVector<%(plist)s>;
+}  // namespace
+c19::Entry& c19::the_entry() {
+  static c19::Entry e{"%(name)s", "%(descr)s", LI::ALL_COPYABLE, &c19::Runner<LI, Vec>::run};
+  return e;
+}
+''' % dict(plist=plist, name=cfg['name'], descr=descr(cfg))
+
+
 def parse_name(name):
     """inverse of make(): rebuild a configuration from its name (replay files carry only the name)."""
     body, al = name.rsplit('__', 1)
